@@ -34,6 +34,7 @@ func JobQueueMain(args []string) (interface{}, error) {
 	steps := fs.Int("steps", 80, "steps per random run")
 	out := fs.String("out", "", "trace output (ndjson)")
 	sched := fs.String("sched", "", "schedules file (one JSON array of labels per line) for replay")
+	suffix := fs.Int("suffix", 0, "replay: seeded random steps appended to every replayed schedule before the drain")
 	storeLag := fs.Bool("storelag", false, "store listener lags")
 	fifo := fs.Bool("fifo", false, "order-sensitive workload: one JobConfig at its limit, mostly Enqueue Jobs")
 	jobsFirst := fs.Bool("jobsfirst", false, "on restart the Job informer lists before the JobConfig informer")
@@ -135,6 +136,16 @@ func JobQueueMain(args []string) (interface{}, error) {
 				if !apply(q, l) {
 					sum.Diverged++
 					sum.DivergedAt[l.A]++
+					break
+				}
+			}
+			// directed schedules: continue from the reached state with seeded random steps before draining
+			for k := 0; k < *suffix; k++ {
+				en := q.Enabled(rng, q.W.Now()+2, *faultP, *applied)
+				if len(en) == 0 {
+					break
+				}
+				if !apply(q, en[rng.Intn(len(en))]) {
 					break
 				}
 			}
